@@ -28,11 +28,16 @@ FAMS = ["Weibull", "LogNormal", "Normal", "LogNormalNormFit", "ExponentiatedWeib
         "VonMises"]
 PARAMS = {"Weibull": ["alpha", "beta", "gamma"], "LogNormal": ["mu", "sigma"], "Normal": ["mu", "sigma"],
           "LogNormalNormFit": ["mu_norm", "sigma_norm"], "ExponentiatedWeibull": ["alpha", "beta", "delta"],
-          "GeneralizedGamma": ["m", "c", "lambda_"], "VonMises": ["kappa", "mu"]}
+          "GeneralizedGamma": ["m", "c", "lambda_"], "VonMises": ["kappa", "mu"], "ScipyGumbel": ["loc", "scale"]}
 ALLFIXED = {"Weibull": dict(f_alpha=1.2, f_beta=1.8, f_gamma=0.2), "LogNormal": dict(f_mu=0.2, f_sigma=0.4),
             "Normal": dict(f_mu=1.3, f_sigma=0.5), "LogNormalNormFit": dict(f_mu_norm=1.4, f_sigma_norm=0.5),
             "ExponentiatedWeibull": dict(f_alpha=1.2, f_beta=1.8, f_delta=1.1),
-            "GeneralizedGamma": dict(f_m=2.0, f_c=1.5, f_lambda_=1.0), "VonMises": dict(f_kappa=2.0, f_mu=1.3)}
+            "GeneralizedGamma": dict(f_m=2.0, f_c=1.5, f_lambda_=1.0), "VonMises": dict(f_kappa=2.0, f_mu=1.3),
+            "ScipyGumbel": dict(f_loc=1.2, f_scale=0.5)}
+# families with a parameter for which 0 is an admissible fixed value, and the spellings of zero
+ZERO_PARAM = {"Weibull": "gamma", "Normal": "mu", "VonMises": "mu", "LogNormal": "mu", "ScipyGumbel": "loc"}
+ZERO_FAMS = sorted(ZERO_PARAM)
+ZERO_VALUES = {"int0": 0, "float0": 0.0, "negzero": -0.0, "npfloat0": np.float64(0), "npint0": np.int64(0)}
 DOCUMENTED = (ValueError, TypeError, NotImplementedError, RuntimeError)   # NotImplementedError is a RuntimeError
 
 
@@ -41,6 +46,9 @@ def _const(x, a):
 
 
 def dist_class(vc, fam):
+    if fam == "ScipyGumbel":        # only used as carrier of a parameter fixed at zero (f_loc=0)
+        from virocon.distributions import ScipyDistribution
+        return type("ScipyGumbel", (ScipyDistribution,), {"scipy_dist_name": "gumbel_r"})
     if fam == "LogNormalNormFit":
         from virocon.distributions import LogNormalNormFitDistribution
         return LogNormalNormFitDistribution
@@ -104,7 +112,11 @@ def build(vc, case, carriers, variant):
         if dm["dist"] == "Ok":
             cls = dist_class(vc, fam)
             if dm["params"] == "FixedAndDependent":
-                desc["distribution"] = cls(**{"f_" + names[0]: 1.3})
+                fv = case["ctx"]["fixval"]
+                if fv == "nonzero":
+                    desc["distribution"] = cls(**{"f_" + names[0]: 1.3})
+                else:                                 # fixed at zero, and a dependence function for it as well
+                    desc["distribution"] = cls(**{"f_" + ZERO_PARAM[fam]: ZERO_VALUES[fv]})
             elif case["ctx"]["fixed"] == i:           # context: nothing left to estimate
                 desc["distribution"] = cls(**ALLFIXED[fam])
             elif not case["ctx"]["fitted"]:           # context: used unfitted, so give it usable parameters
@@ -259,6 +271,10 @@ def cls_name(e):
 
 def carriers_for(case, rot):
     c = [FAMS[(rot + i) % len(FAMS)] for i in range(case["n"])]
+    if case["ctx"]["fixval"] != "nonzero":              # a family in which 0 is an admissible parameter value
+        for i, dm in enumerate(case["dims"]):
+            if dm["params"] == "FixedAndDependent":
+                c[i] = ZERO_FAMS[(rot + i) % len(ZERO_FAMS)]
     if case["fit"]["kind"] == "UnknownWeights":
         c[case["fit"]["pos"]] = "ExponentiatedWeibull"   # the only family with a least-squares fit
     return c
@@ -335,7 +351,7 @@ def case_key(case):
     return (f"n={case['n']} base={case['b']} mal={mal_text(case)} "
             f"op={case['op']['kind']}/{case['op']['arg']} fit={case['fit']['kind']} data={case['data']} cond=[{conds}] "
             f"ctx=allfixed:{cx['fixed']},sample:{cx['sample']},fitted:{int(cx['fitted'])},opt:{cx['opt']},"
-            f"slicer:{cx['skind']}/{cx['skw']}")
+            f"slicer:{cx['skind']}/{cx['skw']},fixed_at:{cx['fixval']}")
 
 
 def judge(ctx, cases, recs, cfg):
@@ -379,6 +395,7 @@ def run(ctx):
     ctx.model_check("Validation", "MC_Validation_mut_slicerkw.cfg", expect_violation="RejectedNotComputed", workers=4)
     ctx.model_check("Validation", "MC_Validation_mut_lateref.cfg", expect_violation="RejectedNotComputed", workers=4)
     ctx.model_check("Validation", "MC_Validation_mut_params.cfg", expect_violation="RejectedNotComputed", workers=4)
+    ctx.model_check("Validation", "MC_Validation_mut_falsy.cfg", expect_violation="RejectedNotComputed", workers=4)
     # ---- R
     cases = ctx.generate("Validation", ctx.pick("Gen_Validation_quick.cfg", "Gen_Validation_thorough.cfg"))
     cases.sort(key=case_key)
